@@ -50,6 +50,8 @@ pub(crate) struct TableLookup {
     // interestingly enough (and super important), this distance may not be eqaul to the
     // requested node's distance
     active_lookups: HashMap<TransactionID, (DistanceToBeat, Timeout)>,
+    // Requests that timed out. Their responses are still welcome while the lookup is running.
+    timed_out_lookups: HashSet<TransactionID>,
     announce_tokens: HashMap<NodeHandle, Vec<u8>>,
     requested_nodes: HashSet<NodeHandle>,
     // Storing whether or not it has ever been pinged so that we
@@ -111,6 +113,7 @@ impl TableLookup {
             announce_tokens: HashMap::new(),
             requested_nodes: HashSet::new(),
             active_lookups: HashMap::with_capacity(INITIAL_PICK_NUM),
+            timed_out_lookups: HashSet::new(),
             tx,
         };
 
@@ -137,6 +140,18 @@ impl TableLookup {
         // Process the message transaction id
         let (dist_to_beat, timeout) = if let Some(lookup) = self.active_lookups.remove(trans_id) {
             lookup
+        } else if self.timed_out_lookups.remove(trans_id) {
+            // The node answered after we stopped waiting for it, but the lookup is still running: the
+            // peers and the announce token it sent are as good as any other.
+            if let Some(token) = msg.token {
+                self.announce_tokens.insert(*node.handle(), token);
+            }
+
+            for value in msg.values {
+                self.tx.send(value).unwrap_or(())
+            }
+
+            return self.current_lookup_status();
         } else {
             tracing::debug!(
                 "{}: Received expired/unsolicited node response for an active table lookup",
@@ -251,6 +266,8 @@ impl TableLookup {
             return self.current_lookup_status();
         }
 
+        self.timed_out_lookups.insert(*trans_id);
+
         if !self.in_endgame {
             // If there are not more active lookups, start the endgame
             if self.active_lookups.is_empty() {
@@ -307,6 +324,7 @@ impl TableLookup {
 
         // This may not be cleared since we didnt set a timeout for each node, any nodes that didnt respond would still be in here.
         self.active_lookups.clear();
+        self.timed_out_lookups.clear();
         self.in_endgame = false;
     }
 
